@@ -18,6 +18,10 @@ CLAIMED = {
                 design='DESIGN.md 4/C06'),
     'C08': dict(text='Bounded model checking of the real MIR of the recursive-descent parser on token arrays of length 0..6 (8 thorough) whose kinds are unknowns over the full 31-kind alphabet, against an independent reference parser of the documented grammar run on the same symbolic array (both reject, or both accept with structurally equal trees); plus the tokenizer\'s text-to-token table executed from MIR under a contract model of the regex engine. The regex engine\'s own matching (longest match, alternation order, separators, comments) is outside the claim.',
                 design='DESIGN.md 4/C08'),
+    'C10': dict(text='Bounded model checking of the real MIR of print_truth_table_recursive (rsbdd binary) on the canonical diagram of an unknown truth table over 1..3 free variables, unknown filter, ParsedFormula from the real constructor, symbolic ids: for a symbolic total assignment exactly one recorded row covers it when the filter admits its value and none otherwise, with the right result; -m composition (model then print); TruthTableEntry::from_str on an unknown string. Text layout, option parsing, input channels, -b and -v are outside the claim.',
+                design='DESIGN.md 4/C10'),
+    'C11': dict(text='Bounded model checking of id assignment under an ordering vector (real tokenizer MIR under the regex contract, unknown names and ids), of to_free_index for arbitrary non-contiguous ids, of the constructor\'s ordering of vars/free_vars, and of the evaluator for all id assignments at once (symbolic ordered atoms). File plumbing and the -r/-o round trip are outside the claim.',
+                design='DESIGN.md 4/C11'),
     'C12': dict(text='Bounded model checking of panic freedom: the panic condition collected by the executor (explicit panics, index bounds, arithmetic overflow in both profiles, expect/unwrap, RefCell borrows, loop bound) is unsatisfiable for tokenize (regex contract, numbers up to 24 digits), parse_formula on all token sequences up to the bound, the constructor, var_is_free and eval on sketches, and printing with non-contiguous ids.',
                 design='DESIGN.md 4/C12'),
     'C09': dict(text='Bounded model checking of var_is_free, of the constructor (new_with_env / extract_vars / sort closure / raw2free loop; tokenizer and parser stubbed to return the sketch) and of the support of the evaluated diagram on syntax-tree sketches with all labels symbolic over 3 atoms: exact free-variable sets in variable order, every id once in vars, consistent raw2free, answers depend only on free variables.',
